@@ -367,3 +367,29 @@ def deep_programs():
                     "deep": n, "table": [kind, is_async, "deep_" + style, "top", "deep%d" % n, raises, raises],
                     "n": {"m": n, "c": 1, "s": 1, "p": 0}})
     return out
+
+
+def layout_twin(prog):
+    """The same program with every multi-item with statement laid out the other way (one line <-> one item per line):
+    identical bytecode, different line table.  None when nothing would change."""
+    import copy
+    twin = copy.deepcopy(prog)
+    changed = [False]
+
+    def walk(stmts):
+        for s in stmts:
+            if not isinstance(s, dict):
+                continue
+            if s.get("t") == "with" and len(s["items"]) >= 2:
+                s["layout"] = "one" if s.get("layout", "one") != "one" else "multi"
+                changed[0] = True
+            for key in ("body", "orelse", "final"):
+                if isinstance(s.get(key), list):
+                    walk(s[key])
+            for h in s.get("handlers", []) or []:
+                walk(h["body"])
+            for c in s.get("cases", []) or []:
+                walk(c)
+
+    walk(twin["body"])
+    return twin if changed[0] else None
